@@ -302,3 +302,40 @@ impl VerifSleep {
         std::future::Future::poll(self.0.as_mut(), &mut cx).is_ready()
     }
 }
+
+/// `StopwatchStart` (crate-private) driven from outside: the verification harness pauses and resumes it around real sleeps and
+/// compares `snapshot().active` with the bounds its own clock readings give.
+pub struct VerifStopwatch(crate::time::StopwatchStart);
+
+impl Default for VerifStopwatch {
+    fn default() -> Self {
+        Self::new()
+    }
+}
+
+impl VerifStopwatch {
+    /// `stopwatch()`
+    pub fn new() -> Self {
+        Self(crate::time::stopwatch())
+    }
+
+    /// `is_paused`
+    pub fn is_paused(&self) -> bool {
+        self.0.is_paused()
+    }
+
+    /// `pause`
+    pub fn pause(&mut self) {
+        self.0.pause()
+    }
+
+    /// `resume`
+    pub fn resume(&mut self) {
+        self.0.resume()
+    }
+
+    /// `snapshot().active`
+    pub fn active(&self) -> std::time::Duration {
+        self.0.snapshot().active
+    }
+}
